@@ -8,3 +8,10 @@ MUTANTS = [
     {'name': 'piano roll registers inputs in a module list', 'file': 'partitura/utils/music.py', 'old': '    note_array = ensure_notearray(note_info)\n\n    if time_unit not in TIME_UNITS + ["auto"]:', 'new': '    note_array = ensure_notearray(note_info)\n    TIME_UNITS.append("auto")\n\n    if time_unit not in TIME_UNITS + ["auto"]:', 'expect': 'GLOBAL'}]
 
 NEUTRALS = []
+
+# changes made by sub-agents that were given only the property text (see /verif/seeded/<id>/): each must stay reported
+SEEDED = [
+    {'name': 'seeded change C20-r2', 'seed': 'C20-r2', 'expect': '|F1|'},
+    {'name': 'seeded change C20', 'seed': 'C20', 'expect': '|F1|'},
+]
+MUTANTS += SEEDED
